@@ -4,8 +4,9 @@
    exactly order-lead-time + 1 / order + shipment lead time + 1 slots, nothing is ever dropped from an order pipeline
    (fLOST = 0) and orders placed = orders still travelling + orders received by the supplier (the cumulative,
    delay-line form of "received after the lead time; nothing is lost under disruptions").
-   NOT proved (kept as statements; decided by the correspondence and by timing monitors on the implementation):
-   the per-period positional form "the order placed in t is the inbound order of t + L" and its shipment analogue. *)
+   and the positional form for ORDERS: the order placed in t is the inbound order of t + L (C03_order_delay).
+   NOT proved (kept as a statement; decided by the correspondence slot by slot and by timing monitors on the
+   implementation): the positional form for SHIPMENTS under transit/receipt-pausing disruptions. *)
 From SV Require Import Sim.Model Sim.Inv_book Sim.Inv_pipe Sim.Inv_run Sim.Main Sim.Example.
 
 Section C03.
@@ -34,10 +35,18 @@ Theorem C03_orders_in_transit_partial : forall e n p, In e (run NW inputs) -> In
   gq e (fcOQ, n, Nd p) + io0 NW n == qsum (gl e (fOP, p, Nd n)) + gq e (fcIO, p, Nd n).
 Proof. exact (orders_in_transit NW inputs G D). Qed.
 
-(* full positional statements, not proved *)
-Definition order_delay_statement : Prop :=
-  forall t n p, In p (preds (C n)) -> (t + olt (C n) < length inputs)%nat ->
-    gq (nth (t + olt (C n)) (run NW inputs) empty_st) (fIO, p, Nd n) == gq (nth t (run NW inputs) empty_st) (fOQ, n, Nd p).
+(* positional form for orders: the order placed in period t arrives as the supplier's inbound order in period
+   t + (order lead time of the ordering node) — for every network, horizon, demand and disruption sequence *)
+Theorem C03_order_delay : forall t n p, In p (preds (C n)) -> (t + olt (C n) < length inputs)%nat ->
+  gq (nth (t + olt (C n)) (run NW inputs) empty_st) (fIO, p, Nd n) == gq (nth t (run NW inputs) empty_st) (fOQ, n, Nd p).
+Proof. exact (order_arrives NW inputs G). Qed.
+
+(* shipment analogue, not proved: a shipment sent to n in t is received in t + SLT(n) unless a transit- or
+   receipt-pausing disruption at n delays it (then it is received afterwards; never lost: C01_edge_conservation) *)
+Definition shipment_delay_statement : Prop :=
+  forall t n p, In p (preds (C n)) -> (t + slt (C n) < length inputs)%nat ->
+    (forall u, (t <= u <= t + slt (C n))%nat -> fst (nth u inputs (fun _ => false, fun _ => 0)) n = false) ->
+    gq (nth t (run NW inputs) empty_st) (fOS, p, Nd n) <= gq (nth (t + slt (C n)) (run NW inputs) empty_st) (fIS, n, Nd p).
 End C03.
 
 Example C03_nonvacuous : good ex_net /\ dem_ok ex_inputs /\
@@ -49,3 +58,4 @@ Print Assumptions C03_on_order_exact_external.
 Print Assumptions C03_pipeline_lengths.
 Print Assumptions C03_nothing_lost.
 Print Assumptions C03_orders_in_transit_partial.
+Print Assumptions C03_order_delay.
